@@ -68,3 +68,21 @@ package parser
 //@   requires nonnil: p != nil
 //@   pure
 //@   ensures same: sameslice(r, p.buffer)
+
+//@ func (p *Parser) DecryptBuffer(AESKey []byte, AESIv []byte)
+//@   requires nonnil: p != nil
+//@   requires iv: len(AESIv) == 16 || (len(AESKey) != 16 && len(AESKey) != 24 && len(AESKey) != 32)
+//@   modifies p.buffer
+
+//@ func (p *Parser) ParseUTF16String() (s string)
+//@   requires nonnil: p != nil
+//@   modifies p.buffer
+//@ func (p *Parser) ParseString() (s string)
+//@   requires nonnil: p != nil
+//@   modifies p.buffer
+
+//@ func (p *Parser) CanIRead(ReadTypes []ReadType) (ok bool)
+//@   requires nonnil: p != nil
+//@   pure
+//@   loop "for _, Type := range ReadTypes"
+//@     invariant bound: 0 <= BytesRead && BytesRead <= TotalSize && TotalSize == len(p.buffer)
